@@ -17,7 +17,8 @@ ASSUME = [
     'Node >= 22.6 module.stripTypeScriptTypes executes the TypeScript sources faithfully; the import-list filter of harness/c15_loader.mjs and the two package stubs (@lumino/coreutils JSONExt.deepCopy, json-stable-stringify) are trusted',
     'JavaScript numbers are IEEE doubles: integral floats and integers are not distinguished and |n| >= 2^53 is outside the compared space (inputs are normalised before either side sees them)',
     'JavaScript strings are UTF-16: the models work on code-unit lists, equal to code-point lists for BMP text; astral text is explored by the differential run only',
-    'object key order is not observable (canonical, sorted-key JSON on both sides); the key "__proto__" is outside the generated space',
+    'object key order is not observable (canonical, sorted-key JSON on both sides)',
+    'the key "__proto__" is inside the generated space and is compared implementation against implementation (the node runner serialises own properties only, through defineProperty, so an own "__proto__" key of a result is kept); the Gallina model of the TypeScript patcher (Ts/TsPatch.v) has no prototype chain and treats it as an ordinary key, so cases containing that key are left out of the TypeScript model-vs-implementation comparison and the theorems of Props/C15.v speak about documents without it; the disagreements it causes are the known findings proto-key:*; the @lumino/coreutils stub copies objects as lumino does (for-in, result[key] = copy)',
     'str.splitlines(True) is modelled by Base/PyStr.v and String.prototype.match(/^.*(\\r\\n|\\r|\\n|$)/gm) by Ts/TsSplit.v (both compared with the real functions on every string of the split corpus)',
     'decision application (applyDecisions vs apply_decisions) is compared differentially only; there is no Gallina model of it yet',
 ]
@@ -222,6 +223,189 @@ def gen_inline_vs_lines(r, n):
         out.append(('inline-vs-lines', base, one, two))
     return out
 
+# key names that mean something to JavaScript although they are ordinary dict keys for Python: the members of
+# Object.prototype (every object "has" them through the prototype chain), members of Array / Function / String prototypes
+# and of Promise-likes, global names, integer-like keys (enumerated first by Object.keys), and the field names of diff
+# entries and decisions themselves.  "__proto__" (assignment to it sets the prototype instead of creating a key) is drawn now
+# and then by _jskey and is forced in a fixed share of the cases (force= of _jsk_plan).
+JS_OBJECT_PROTO = ['constructor', 'toString', 'toLocaleString', 'valueOf', 'hasOwnProperty', 'isPrototypeOf', 'propertyIsEnumerable',
+                   '__defineGetter__', '__defineSetter__', '__lookupGetter__', '__lookupSetter__']
+JS_OTHER = ['length', 'prototype', 'name', 'keys', 'push', 'splice', 'indexOf', 'map', 'slice', 'toJSON', 'then', 'call', 'apply',
+            'undefined', 'null', 'NaN', 'this', '0', '1', '10', '-1', 'op', 'key', 'value', 'diff', 'valuelist', 'action', 'common_path']
+ORDINARY = ['note', 'k', 'extra', 'a', 'custom']
+PROTO = '__proto__'
+
+def _jskey(r, avoid=()):
+    c = r.random()
+    if c < 0.04 and PROTO not in avoid: return PROTO
+    pool = JS_OBJECT_PROTO if c < 0.65 else (JS_OTHER if c < 0.9 else ORDINARY)
+    cand = [k for k in pool if k not in avoid] or [k for k in JS_OBJECT_PROTO + JS_OTHER + ORDINARY if k not in avoid]
+    return r.choice(cand)
+
+def _jsk_value(r, depth=2):
+    """value stored under such a key: atoms, one-line and multi-line strings, lists, dicts (again with such keys)"""
+    c = r.random()
+    if depth <= 0 or c < 0.35: return copy.deepcopy(r.choice([None, True, False, 0, 1, 2, 1.5, '', 'Widget', 'repr', 'Notebook']))
+    if c < 0.5: return ''.join(w + '\n' for w in r.sample(genjson.WORDS[:14], r.choice([2, 3, 4])))
+    if c < 0.7: return [_jsk_value(r, depth - 1) for _ in range(r.choice([0, 1, 2, 3]))]
+    d = {}
+    for _ in range(r.choice([0, 1, 2, 3])): d[_jskey(r, d)] = _jsk_value(r, depth - 1)
+    return d
+
+def _jsk_change(r, v):
+    """a different value; containers and multi-line strings stay similar (the differ recurses: op patch), atoms change
+    (op replace)"""
+    if isinstance(v, dict):
+        v = copy.deepcopy(v); c = r.random()
+        if v and c < 0.3: del v[r.choice(sorted(v))]
+        elif v and c < 0.5: k = r.choice(sorted(v)); v[k] = _jsk_change(r, v[k])
+        else: v[_jskey(r, v)] = _jsk_value(r, 1)
+        return v
+    if isinstance(v, list):
+        v = copy.deepcopy(v)
+        if v and r.random() < 0.3: del v[r.randrange(len(v))]
+        else: v.insert(r.randint(0, len(v)), r.choice(['new', 3, {'constructor': 1}, {'k': 1}]))
+        return v
+    if isinstance(v, str) and '\n' in v:
+        lines = v.splitlines(True); c = r.random()
+        if c < 0.4: lines.insert(r.randint(0, len(lines)), 'inserted line\n')
+        elif c < 0.7 and len(lines) > 1: del lines[r.randrange(len(lines))]
+        else: i = r.randrange(len(lines)); lines[i] = _inline_edit(r, lines[i])
+        return ''.join(lines)
+    return r.choice([x for x in (None, True, 0, 1, 2.5, 'other', 'Widget2', [], {}) if canon(x) != canon(v)])
+
+JSK_HOW = ('add', 'add', 'add', 'remove', 'replace', 'patch', 'keep', 'swap', 'multi-add', 'add+ordinary', 'add-nested')
+
+def _jsk_plan(r, d, how=None, avoid=(), force=None):
+    """prepares the dict d (of the BASE document, in place) for one change of a JavaScript-significant key and returns
+    the plan [(op, key, value)] that _jsk_apply carries out on a copy of d.  force: the key name the (first) change is
+    about, instead of a drawn one"""
+    how = how or r.choice(JSK_HOW)
+    avoid = set(avoid)
+    forced = [force] if force is not None and force not in avoid else []
+    def fresh():
+        k = forced.pop() if forced and forced[0] not in d else _jskey(r, set(d) | avoid)
+        avoid.add(k); return k
+    def present(container=False):
+        k = forced.pop() if forced else _jskey(r, avoid)
+        avoid.add(k)
+        if k not in d or (container and not isinstance(d[k], (dict, list)) and not (isinstance(d[k], str) and '\n' in d[k])):
+            v = _jsk_value(r)
+            while container and not (isinstance(v, (dict, list)) or (isinstance(v, str) and '\n' in v)): v = _jsk_value(r)
+            d[k] = v
+        return k
+    if how == 'add': return [('add', fresh(), _jsk_value(r))]
+    if how == 'remove': return [('remove', present(), None)]
+    if how == 'replace': k = present(); return [('set', k, _jsk_change(r, 7 if isinstance(d[k], (dict, list, str)) else d[k]))]
+    if how == 'patch': k = present(True); return [('set', k, _jsk_change(r, d[k]))]
+    if how == 'keep':                 # control: the key is there and stays, an ordinary key is added next to it
+        present(); return [('add', r.choice([k for k in ORDINARY + ['zz', 'yy'] if k not in d and k not in avoid]), _jsk_value(r, 1))]
+    if how == 'swap': return [('remove', present(), None), ('add', fresh(), _jsk_value(r))]
+    if how == 'multi-add': return [('add', fresh(), _jsk_value(r, 1)) for _ in range(r.choice([2, 3, 4]))]
+    if how == 'add+ordinary':
+        plan = [('add', fresh(), _jsk_value(r))]
+        ks = sorted(k for k in d if k not in avoid and k not in ('kernelspec', 'language_info', 'tags'))
+        if ks and r.random() < 0.6: k = r.choice(ks); avoid.add(k); plan.append(('set', k, _jsk_change(r, d[k])))
+        else: plan.append(('add', r.choice([k for k in ORDINARY + ['zz', 'yy'] if k not in d and k not in avoid]), 1))
+        return plan
+    # add-nested: the key is added to a dict that sits under an ordinary or a JavaScript-significant key
+    outer = r.choice(['extra', 'nested', 'constructor', 'valueOf', 'prototype'])
+    if forced and r.random() < 0.5: outer = forced.pop()          # the dict sits UNDER the forced key and gains a drawn key
+    while outer in avoid: outer = outer + '_'
+    avoid.add(outer)
+    if not isinstance(d.get(outer), dict): d[outer] = {'x': 1} if r.random() < 0.5 else {}
+    inner = dict(d[outer]); inner[forced.pop() if forced and forced[0] not in inner else _jskey(r, inner)] = _jsk_value(r, 1)
+    return [('set', outer, inner)]
+
+def _jsk_apply(d, plan):
+    for op, k, v in plan:
+        if op == 'remove': d.pop(k, None)
+        else: d[k] = copy.deepcopy(v)
+
+def _jsk_sites(nb):
+    """paths of the dicts of a notebook that may carry free keys"""
+    out = [('metadata',)]
+    for i, c in enumerate(nb['cells']):
+        out.append(('cells', i, 'metadata'))
+        for j, o in enumerate(c.get('outputs', [])):
+            if o['output_type'] in ('display_data', 'execute_result'): out.append(('cells', i, 'outputs', j, 'metadata'))
+    return out
+
+def _at(v, path):
+    for k in path: v = v[k]
+    return v
+
+PROTO_HOW = ('add', 'remove', 'replace', 'patch', 'keep', 'swap', 'add-nested', 'add+ordinary')
+def _proto_share(i):
+    """every fourth case of each kind is about the key "__proto__": added, removed, replaced, patched, present and
+    untouched while another key changes, swapped, nested (in turn)"""
+    if i % 4 != 3: return {}
+    return {'force': PROTO, 'how': PROTO_HOW[i // 4 % len(PROTO_HOW)]}
+
+def gen_jskeys_pairs(r, n):
+    """(a, b) pairs in which a dict key whose name means something to JavaScript -- above all the members of
+    Object.prototype, which `in` and plain property reads see on every object -- is added, removed, replaced, patched or
+    merely present.  Half are plain JSON objects (key at top level, inside a nested dict, inside a dict in a list), half are
+    notebooks (notebook / cell / output metadata).  Variation: the name, the kind of change, the value kind (atom, string,
+    multi-line string, list, dict with such keys again), several keys at once, ordinary keys changing alongside."""
+    out = []
+    for t in range(n):
+        if t % 2 == 0:
+            a = genjson.gen_container(r, kind='dict', depth=2)
+            shape = t // 2 % 3
+            if shape == 0: holder = a; wrap = lambda x: x
+            elif shape == 1:
+                a = {'outer': a, 'n': 1}; holder = a['outer']; wrap = lambda x: x['outer']
+            else:
+                a = {'items': [{'id': 1}, a, 'tail']}; holder = a['items'][1]; wrap = lambda x: x['items'][1]
+            plan = _jsk_plan(r, holder, **_proto_share(t // 2))
+            b = copy.deepcopy(a); _jsk_apply(wrap(b), plan)
+            out.append(('jskeys-json', 'gdiff', a, b))
+        else:
+            a = gennb.gen_notebook(r, ncells=r.choice([1, 1, 2, 3]), rich=False)
+            sites = _jsk_sites(a)
+            site = r.choice(sites[1:]) if r.random() < 0.7 else sites[0]
+            plan = _jsk_plan(r, _at(a, site), **_proto_share(t // 2))
+            b = copy.deepcopy(a); _jsk_apply(_at(b, site), plan)
+            if r.random() < 0.3:              # something ordinary changes as well
+                c = b['cells'][r.randrange(len(b['cells']))]; c['source'] = c['source'] + ('' if c['source'].endswith('\n') or not c['source'] else '\n') + 'z = 0\n'
+            out.append(('jskeys-nb', 'nbdiff', a, b))
+    return out
+
+def gen_jskeys_triples(r, n):
+    """three-way merges around the same keys: one side changes such a key while the other side does something ordinary
+    (edits a source, or nothing), both sides change different such keys of the same dict or of different dicts, both make
+    the same addition, both add the same key with different values (conflict under mergetool)."""
+    out = []
+    for t in range(n):
+        base = gennb.gen_notebook(r, ncells=r.choice([1, 2, 2, 3]), rich=False)
+        sites = _jsk_sites(base)
+        s1 = r.choice(sites[1:]) if r.random() < 0.7 else sites[0]
+        mode = t % 6
+        rnd = t // 6              # every other round of the six modes is about the key "__proto__", the kind of change taking turns
+        ps = {'force': PROTO, 'how': PROTO_HOW[(rnd // 2 + mode) % len(PROTO_HOW)]} if rnd % 2 == 1 else {}
+        if mode in (0, 1):        # one side only / other side edits a source
+            p1 = _jsk_plan(r, _at(base, s1), **ps); s2 = None; p2 = []
+        elif mode == 2:           # different keys, same dict
+            p1 = _jsk_plan(r, _at(base, s1), **ps); used = {k for _, k, _ in p1}
+            s2 = s1; p2 = _jsk_plan(r, _at(base, s2), how=r.choice(['add', 'add', 'remove', 'replace', 'patch', 'multi-add']), avoid=used)
+        elif mode == 3:           # different dicts
+            s2 = r.choice([s for s in sites if s != s1])
+            p1 = _jsk_plan(r, _at(base, s1), **ps); p2 = _jsk_plan(r, _at(base, s2))
+        elif mode == 4:           # the same change on both sides
+            p1 = _jsk_plan(r, _at(base, s1), **ps); s2 = s1; p2 = p1
+        else:                     # same key added with different values
+            k = PROTO if ps and PROTO not in _at(base, s1) else _jskey(r, _at(base, s1)); v = _jsk_value(r, 1)
+            p1 = [('add', k, v)]; s2 = s1; p2 = [('add', k, _jsk_change(r, v))]
+        one = copy.deepcopy(base); two = copy.deepcopy(base)
+        _jsk_apply(_at(one, s1), p1)
+        if s2 is not None: _jsk_apply(_at(two, s2), p2)
+        if mode == 1 or r.random() < 0.2:
+            c = two['cells'][r.randrange(len(two['cells']))]; c['source'] = c['source'] + ('' if c['source'].endswith('\n') or not c['source'] else '\n') + 'z = 0\n'
+        if r.random() < 0.5: one, two = two, one
+        out.append(('jskeys-triple', base, one, two))
+    return out
+
 def gen_cases(chk, tier):
     r = chk.rng
     k = 1 if tier == 'quick' else 6
@@ -295,6 +479,8 @@ def gen_cases(chk, tier):
         splits.append(''.join(r.choice(alpha + ['b', ' ', chr(0x1f600), chr(0xe9)]) for _ in range(r.randint(4, 12))))
     # generated last so that the draws of the families above are unchanged
     triples += [(s, norm_numbers(b), norm_numbers(l), norm_numbers(rm)) for s, b, l, rm in gen_inline_vs_lines(r, 60 * k)]
+    pairs += [(s, kd, norm_numbers(a), norm_numbers(b)) for s, kd, a, b in gen_jskeys_pairs(r, 80 * k)]
+    triples += [(s, norm_numbers(b), norm_numbers(l), norm_numbers(rm)) for s, b, l, rm in gen_jskeys_triples(r, 30 * k)]
     return pairs, triples, splits
 
 # ------------------------------------------------------------------ judging
@@ -434,7 +620,7 @@ def run(tier, seed):
     chk.cov.update({
         'evaluations': len(pcases) + len(mcases) + len(splits),
         'distinct_nontrivial': len(nontriv),
-        'rule': 'each (base, diff) from nbdime.diff / diff_notebooks and each (base, decisions) from decide_notebook_merge(mergetool) over the generated space is one program run through Python and TypeScript; strings over {a,b,LF,CR}+each of VT,FF,FS,GS,RS,NEL,LS,PS, multi-line text, astral text, JSON documents, notebooks, notebook triples incl. nbformat_minor conflicts; non-trivial = non-empty diff / non-empty decision list, distinct by canonical JSON of the pair; split strings are counted in evaluations only',
+        'rule': 'each (base, diff) from nbdime.diff / diff_notebooks and each (base, decisions) from decide_notebook_merge(mergetool) over the generated space is one program run through Python and TypeScript; strings over {a,b,LF,CR}+each of VT,FF,FS,GS,RS,NEL,LS,PS, multi-line text, astral text, JSON documents, notebooks, notebook triples incl. nbformat_minor conflicts, in-line edit on one side vs whole-line changes on the other in one source (inline-vs-lines), dict keys named like members of Object.prototype / other JavaScript-significant names (constructor, toString, valueOf, hasOwnProperty, length, 0, op, ...) added / removed / replaced / patched / kept in JSON objects (jskeys-json), in notebook, cell and output metadata (jskeys-nb) and on one or both sides of a merge (jskeys-triple), __proto__ excluded; non-trivial = non-empty diff / non-empty decision list, distinct by canonical JSON of the pair; split strings are counted in evaluations only',
         'input_distribution': hist,
         'traces_validated_against_impl': t1, 'model_impl_mismatches': mism,
         'ts_executed': not static_only, 'node': node or 'absent',
@@ -485,11 +671,11 @@ def wf_for_ts_model(c):
 def select_t1(pcases, tier):
     """all small cases, a bounded number of notebook-sized ones (the coqc route parses every case as a term)"""
     lim = 40 if tier == 'quick' else 160
-    out = []; nb = 0
+    out = []; nb = {}
     for c in pcases:
-        if c['src'] == 'nb':
-            nb += 1
-            if nb > lim: continue
+        if c['src'] == 'nb' or c['src'].endswith('-nb'):
+            nb[c['src']] = nb.get(c['src'], 0) + 1
+            if nb[c['src']] > lim: continue
         out.append(c)
     return out
 
